@@ -204,6 +204,8 @@ VERSIONS = {
     "T16:mut:fwd1": ("T16", lambda t: _cfg(t, "X").defaults.__setitem__(0, ("7", None))),
     # an option defined in two places (differently gated) whose default changes
     "E_multidef:mut:default": ("E_multidef", lambda t: _find(t, "Y")[0][0].defaults.__setitem__(0, ("4", None))),
+    # the option another option's default refers to (and that is defined after it) gets a new default
+    "E_default_val_fwd:mut:base": ("E_default_val_fwd", lambda t: _find(t, "X")[0][0].defaults.__setitem__(0, ("6", None)) or _find(t, "XS")[0][0].defaults.__setitem__(0, ('"b"', None))),
     "T04:mut:hexdefault": ("T04", lambda t: _cfg(t, "HX").defaults.__setitem__(0, ("0x30", None))),
     "T04:mut:floatdefault": ("T04", lambda t: _cfg(t, "FL").defaults.__setitem__(1, ("3.5", None))),
 }
